@@ -1,36 +1,69 @@
 """C07 — the same CAN frame decodes identically through every input format.
-Theorems: Props/C07.lean (+C06) over Model/Wire.lean (T3)."""
+Theorems: Props/C07.lean (+C06) over Model/Wire.lean (T3): the five front-ends extract the same frame;
+Props/C07Fast.lean over Model/Decoder.lean + the T1 `is_fast` table: frame by frame = pre-assembled for every
+fast-packet definition of the database, `already_combined` irrelevant for single-frame definitions."""
+import random
+
 import common
 import harness
 import wirecorr
 
-PROP_FILES = ["N2k/Props/C07.lean"]
-LEAN_TARGETS = ["N2k.Props.C07"]
-SUITE_NAMES = ["wire-decoders"]
+PROP_FILES = ["N2k/Props/C07.lean", "N2k/Props/C07Fast.lean"]
+LEAN_TARGETS = ["N2k.Props.C07", "N2k.Props.C07Fast"]
+SUITE_NAMES = ["wire-decoders", "gen-is-fast", "decoder-via-formats"]
 ASSUMPTIONS = ["text input on the strict grammar (hex digits, single-space separated tokens); Python's extra laxness (0x, _, signs, exotic whitespace) is outside the model",
-               "all five front-ends hand the extracted frame to the one decoding core `_decode`; what the core does with a frame is format-independent by construction (the frame-wise vs pre-assembled fast-packet clause is carried by C03/C04 and the decoder model)"]
-TRUSTED_EXTRA = ["C07: Model/Wire.lean hand model of the five front-ends, tied by differential runs with the frame observed at _decode"]
+               "all five front-ends hand the extracted frame to the one decoding core `_decode`; the frame-level ones with already_combined=False, Actisense and canboat-plain(combined) with True",
+               "PGN types ISO and Mixed (65240, 126976: `is_fast_pgn_*` raises by design) are outside the property's 'single-frame and fast-packet' domain",
+               "C07_framewise_eq_combined: the stream's reassembly record does not already hold the message's sequence counter (a sender advances its counter per message)"]
+TRUSTED_EXTRA = ["C07: Model/Wire.lean hand model of the five front-ends, tied by differential runs with the frame observed at _decode",
+                 "C07: T1 translator for the is_fast table (validated against every real is_fast_pgn_* function); Model/Decoder.lean tied by driving the real decoder through its six public deliveries"]
 
 
 def problem_relevant(p):
-    return "_extract_header" in p or "checksum" in p
+    return "_extract_header" in p or "checksum" in p or "is_fast" in p
+
+
+def suite_is_fast(ctx):
+    """every is_fast_pgn_<pgn>() of the real module vs the translated table (validates the T1 translator for this table)"""
+    harness.load_repo()
+    import nmea2000.pgns as P
+    s = common.Suite("gen-is-fast", "is_fast_pgn_<pgn>() of the shipped pgns.py vs Gen.fasts for every PGN with such a function, plus PGNs without one")
+    names = sorted(int(n[len("is_fast_pgn_"):]) for n in dir(P) if n.startswith("is_fast_pgn_"))
+    for n in names + [1, 59000, 61000, 130999, 262143]:
+        f = getattr(P, f"is_fast_pgn_{n}", None)
+        if f is None:
+            exp = "nofn"
+        else:
+            try:
+                exp = "true" if f() is True else "false" if f() is False else "other"
+            except Exception:
+                exp = "raises"
+        s.add(f"isfast {n}", exp, exp)
+    return [s.run()]
 
 
 def correspondence(ctx):
-    return wirecorr.decode_suites(ctx)
+    import deccorr
+    return wirecorr.decode_suites(ctx) + suite_is_fast(ctx) + deccorr.suite_formats(ctx)
 
 
 def search(ctx, broken, corr_broken):
     global LAST_SEARCH_CANDIDATES
-    LAST_SEARCH_CANDIDATES = 3000
+    import deccorr
+    out = []
     hit = wirecorr.five_way(ctx, 3000)
     if hit:
-        return [{"key": f"C07/formats-disagree/{hit['id']}-{hit['data']}", "what": f"frame id={hit['id']} data={hit['data']}: expected {hit['expected']}, got {hit['got']}",
-                 "replay": {"kind": "five-way", **hit}}]
-    return []
+        out.append({"key": f"C07/formats-disagree/{hit['id']}-{hit['data']}", "what": f"frame id={hit['id']} data={hit['data']}: expected {hit['expected']}, got {hit['got']}",
+                    "replay": {"kind": "five-way", **hit}})
+    hits, n = deccorr.monitor_formats(ctx, 8)
+    LAST_SEARCH_CANDIDATES = 3000 + n
+    return out + hits
 
 
 def replay(rp):
+    if rp.get("kind") == "formats":
+        import deccorr
+        return deccorr.replay_formats(rp)
     if rp.get("kind") != "five-way":
         return False, "not an input replay: " + str(rp.get("broken_theorems") or rp.get("broken_correspondence"))[:500]
     hit = wirecorr.five_way({"seed": rp.get("seed", 0)}, 3000)
